@@ -106,18 +106,20 @@ def check(run, ctx):
 
     # ------------------------------------------------------------- I3
     I3 = run.rule("I3", "every re.search that extracts a rule list from a directive carries re.IGNORECASE (markers are case-insensitive)", floor=6)
-    mi = repo.mod(IGN)
-    for f in repo.funcs_in(IGN + "."):
-        for c in ast.walk(f.node):
-            if isinstance(c, ast.Call) and dotted(c.func) in ("re.search", "re.match", "re.finditer", "re.findall") and c.args:
-                pat = repo.fold(mi, c.args[0])
-                if not isinstance(pat, str) or "ignore" not in pat:
-                    continue
-                flags = " ".join(ast.unparse(a) for a in c.args[2:]) + " ".join(ast.unparse(k.value) for k in c.keywords)
-                if "IGNORECASE" in flags or "re.I" in flags.split() or pat.startswith("(?i"):
-                    run.ok(I3, f"{f.name}:{pat[:24]}", "case-insensitive")
-                else:
-                    run.finding(I3, f.name, f"regex:{pat}", f"{f.name}: regex {pat!r} is case-sensitive while its marker is matched case-insensitively", f.loc)
+    # every regex constant of the module, whether passed to re.search(...) in place or compiled once at module level
+    from .. import regexes as RX
+    import re as _re
+
+    for p_ in RX.patterns_in(repo):
+        if p_["module"].name != IGN or p_["func"] == "split" or not isinstance(p_["pattern"], str) or "ignore" not in p_["pattern"]:
+            continue
+        pat = p_["pattern"]
+        if p_["flags"] is None:
+            run.undecided(I3, f"{pat[:24]}", "flags are not a constant expression")
+        elif p_["flags"] & _re.IGNORECASE or pat.startswith("(?i"):
+            run.ok(I3, f"{pat[:32]}", "case-insensitive")
+        else:
+            run.finding(I3, IGN.replace("src.", "", 1), f"regex:{pat}", f"regex {pat!r} is case-sensitive while its marker is matched case-insensitively", f"{p_['module'].rel}:{p_['line']}")
 
     # ------------------------------------------------------------- I4
     I4 = run.rule("I4", "a line list indexed by a parser-derived (\\n-model) line number is produced by split('\\n'), not str.splitlines()", floor=5,
